@@ -92,6 +92,26 @@ theorem eval_tree (σ : V → Bool) (t : Tree V) (v : Val V) (h : t.run = .ok v)
       obtain ⟨h1, h2⟩ := pyNeg_sound σ h
       cases x <;> simp [pyNeg] at h <;> subst h <;>
         simp_all [Val.Sound, Val.val, Tree.den, litVal_neg, termVal_neg, Num.toInt_neg]
+  | inv a ih =>
+    simp only [Tree.run, bind, Except.bind] at h
+    cases ha : a.run with
+    | error e => simp [ha] at h
+    | ok x =>
+      simp only [ha] at h
+      obtain ⟨h1, h2⟩ := pyInv_sound σ h
+      have hxi : x.isIneq = false := by cases x <;> simp [pyInv] at h <;> rfl
+      apply Val.sound_of_val h1
+      rw [h2, Val.sound_val hxi (ih x ha)]; rfl
+  | pos a ih =>
+    simp only [Tree.run, bind, Except.bind] at h
+    cases ha : a.run with
+    | error e => simp [ha] at h
+    | ok x =>
+      simp only [ha] at h
+      obtain ⟨h1, h2⟩ := pyPos_sound σ h
+      have hxi : x.isIneq = false := by cases x <;> simp [pyPos] at h <;> rfl
+      apply Val.sound_of_val h1
+      rw [h2, Val.sound_val hxi (ih x ha)]; rfl
   | mul a b iha ihb =>
     simp only [Tree.run, bind, Except.bind] at h
     cases ha : a.run with
@@ -149,18 +169,11 @@ theorem eval_tree (σ : V → Bool) (t : Tree V) (v : Val V) (h : t.run = .ok v)
       | error e => simp [ha, hb] at h
       | ok y =>
         simp only [ha, hb] at h
-        have hx := iha x ha
-        have hy := ihb y hb
-        obtain ⟨q, hq, hh⟩ := pyCmp_sound σ h
-        subst hq
-        have hyi : y.isIneq = false := by
-          cases y <;> simp [Val.isIneq]
-          cases x <;> simp [pyCmp, cmpPB, exprOf, Val.operand?, bind, Except.bind] at h
-        cases x <;> cases y <;> simp only [pyCmp] at h <;>
-          first
-          | (simp at h; done)
-          | (simp [Val.isIneq] at hyi; done)
-          | (simp_all [Val.Sound, Tree.truth])
+        rcases pyCmp_sound σ h with ⟨q, hq, hxi, hyi, hh⟩ | ⟨hv, _⟩
+        · subst hq
+          show q.holds σ ↔ o.rel (a.den σ) (b.den σ)
+          rw [hh, Val.sound_val hxi (iha x ha), Val.sound_val hyi (ihb y hb)]
+        · subst hv; rfl
   | ineq s a b iha ihb =>
     simp only [Tree.run, bind, Except.bind] at h
     cases ha : a.run with
@@ -170,12 +183,53 @@ theorem eval_tree (σ : V → Bool) (t : Tree V) (v : Val V) (h : t.run = .ok v)
       | error e => simp [ha, hb] at h
       | ok y =>
         simp only [ha, hb] at h
-        have hx := iha x ha
-        have hy := ihb y hb
-        obtain ⟨q, o, ho, hq, hh⟩ := pyIneq_sound σ h
+        obtain ⟨q, o, ho, hq, hxi, hyi, hh⟩ := pyIneq_sound σ h
         subst hq
-        cases x <;> cases y <;> simp only [pyIneq] at h <;> try (simp at h; done)
-        simp_all [Val.Sound, Tree.truth]
+        show q.holds σ ↔ Tree.truth σ (.ineq s a b)
+        simp only [Tree.truth, ho]
+        rw [hh, Val.sound_val hxi (iha x ha), Val.sound_val hyi (ihb y hb)]
+
+/-- the builtin `sum(items)` (start value: the int `0`) and `sum(items, start)`: whenever Python builds an object, its
+    value is the start value plus the sum of the direct values of the items -/
+theorem eval_sum (σ : V → Bool) (start : Tree V) (items : List (Tree V)) (v : Val V)
+    (h : (Tree.sumFrom start items).run = .ok v) :
+    v.Sound σ (Tree.sumFrom start items) ∧
+      (Tree.sumFrom start items).den σ = start.den σ + (items.map (Tree.den σ)).sum :=
+  ⟨eval_tree σ _ v h, Tree.den_sumFrom σ items start⟩
+
+/-- `Ineq(lhs, x, op)` for every operand kind `Expr.__sub__` accepts on the right (`str`, `Literal`, `Term`, number,
+    `Expr`): the built inequality holds iff the normalised comparison of the two values holds, and its left side is in
+    normal form -/
+theorem ineq_operand_holds_iff (σ : V → Bool) (l : Expr V) (x : Operand V) (op : NOp) :
+    (Ineq.makeOp l x op).holds σ ↔ op.rel (l.eval σ) (x.val σ) := Ineq.holds_makeOp σ l x op
+
+theorem normal_form_ineq_operand {l : Expr V} (x : Operand V) (op : NOp) (h : l.NF) : (Ineq.makeOp l x op).lhs.NF :=
+  Ineq.nf_makeOp x op h
+
+/-- all five operators and both operand orders reduce to the three normalised forms: `a <= b` is `b >= a`, `a < b` is
+    `b > a`, `==` is `=` -/
+theorem ineq_normalisation (a b : Expr V) (o : CmpOp) :
+    Ineq.make a b o = (if o.norm.2 then Ineq.makeOp b (.expr a) o.norm.1 else Ineq.makeOp a (.expr b) o.norm.1) ∧
+    (∀ x y : Int, o.rel x y ↔ o.norm.1.rel (if o.norm.2 then y else x) (if o.norm.2 then x else y)) :=
+  ⟨Ineq.make_eq_makeOp a b o, CmpOp.norm_rel o⟩
+
+/-- a comparison operator applied to two Python values either builds an `Ineq` equivalent to the direct comparison
+    (then neither operand is itself an `Ineq`), or answers the `bool` `False` — only for `Ineq == str/number` -/
+theorem cmp_dispatch (σ : V → Bool) {o : CmpOp} {x y v : Val V} (h : pyCmp o x y = .ok v) :
+    (∃ q, v = .ineq q ∧ x.isIneq = false ∧ y.isIneq = false ∧ (q.holds σ ↔ o.rel (x.val σ) (y.val σ))) ∨
+    (v = .bool false ∧ (x.isIneq = true ∨ y.isIneq = true)) := pyCmp_sound σ h
+
+/-- no class of the module defines `__invert__` / `__pos__` / `__rsub__`, `Literal` and `Term` define no `__sub__`,
+    `Expr` no `__neg__` / `__radd__`: these expressions are refused with `TypeError` whatever the operands contain -/
+theorem unsupported_operators (l : Literal V) (t : Term V) (e : Expr V) (q : Ineq V) (n : Num) (y : Val V) :
+    pyInv (.lit l) = .error .typeError ∧ pyInv (.term t) = .error .typeError ∧ pyInv (.expr e) = .error .typeError ∧
+    pyInv (.ineq q) = .error .typeError ∧
+    pyPos (.lit l) = .error .typeError ∧ pyPos (.term t) = .error .typeError ∧ pyPos (.expr e) = .error .typeError ∧
+    pyNeg (.expr e) = .error .typeError ∧ pyNeg (.ineq q) = .error .typeError ∧
+    pySub (.lit l) y = .error .typeError ∧ pySub (.term t) y = .error .typeError ∧
+    pySub (.num n) (.lit l) = .error .typeError ∧ pySub (.num n) (.term t) = .error .typeError ∧
+    pySub (.num n) (.expr e) = .error .typeError ∧ pyAdd (.num n) (.expr e) = .error .typeError := by
+  refine ⟨rfl, rfl, rfl, rfl, rfl, rfl, rfl, rfl, rfl, ?_, ?_, rfl, rfl, rfl, rfl⟩ <;> cases y <;> rfl
 
 /-! ### non-vacuity: concrete instances -/
 
@@ -195,5 +249,22 @@ example : (Tree.cmp .le (.num (.int 2)) (.add (.lit 0 true) (.lit 1 true))).run
 /-- a float multiplier is truncated by `int()`: `(a + 1) * 2.75 = 2a + 2` -/
 example : (Tree.mul (.add (.lit 0 true) (.num (.int 1))) (.num (.flt 11 4))).run
     = .ok (.expr (⟨2, [⟨⟨0, true⟩, 2⟩]⟩ : Expr Nat)) := by rfl
+
+/-- `sum([a, 2*b, ¬a])` starts from the int `0`: `0 + a` goes through `Literal.__radd__` -/
+example : (Tree.sumOf [.lit 0 true, .mul (.num (.int 2)) (.lit 1 true), .neg (.lit 0 true)]).run
+    = .ok (.expr (⟨1, [⟨⟨1, true⟩, 2⟩]⟩ : Expr Nat)) := by rfl
+
+/-- `sum([a + b, a])` fails on the first addition `0 + Expr` (`Expr` has no `__radd__`) -/
+example : (Tree.sumOf [.add (.lit 0 true) (.lit 1 true), .lit 0 true] : Tree Nat).run = .error .typeError := by rfl
+
+/-- `Ineq(a + b, "a", "<")`: the constructor accepts any `AddTerm` on the right; `<` swaps the sides, and a `str` on the
+    left supports no subtraction -/
+example : (Tree.ineq "<" (.add (.lit 0 true) (.lit 1 true)) (.str 0) : Tree Nat).run = .error .typeError := by rfl
+example : (Tree.ineq ">" (.add (.lit 0 true) (.lit 1 true)) (.str 0) : Tree Nat).run
+    = .ok (.ineq ⟨⟨0, [⟨⟨1, true⟩, 1⟩]⟩, 0, .gt⟩) := by rfl
+
+/-- `(a >= 1) == 3` is the `bool` `False`; `~a` is refused -/
+example : (Tree.cmp .eq (.cmp .ge (.lit 0 true) (.num (.int 1))) (.num (.int 3)) : Tree Nat).run = .ok (.bool false) := by rfl
+example : (Tree.inv (.lit 0 true) : Tree Nat).run = .error .typeError := by rfl
 
 end FV.C16
